@@ -958,6 +958,10 @@ func (sc *specCtx) call(n *SCall) SV {
 		for _, a := range n.Args[2:] {
 			as = append(as, sc.mat(sc.val(a)))
 		}
+		if name == "im_Token" && t != nil {
+			// (declared on first use by a call; a contract may mention it where the code has no such call)
+			e.declFun("im_Token", []string{"Any"}, sc.sortOf(t))
+		}
 		if len(as) == 0 {
 			return SV{T: name, Ty: t}
 		}
